@@ -346,6 +346,25 @@ def run(ctx):
         ctx.check(g9, "N9", "clone_dyn", "clone_dyn(tag) = new_boxed(tag.header().clone(), &[first header.payload_len() bytes of tag.payload()]) - the unpadded content",
                   C.site(), how=why, why=why)
     c14.rounding_kernel(ctx, F, rule="N2")
+    # ---- N10 "a clone is equal": clone_dyn reproduces the bytes up to the declared size (N9); `==` must then say equal, i.e. the
+    # PartialEq of every dynamically sized tag compares declared content only, field by field (the derive), and never something
+    # that includes the allocation's padding (`as_bytes()`, `payload()` of the trait) or pairs different fields
+    n_eq = 0
+    for k_, v_ in sorted(F.insts.items()):
+        if v_.get("name") != "eq" or "core::cmp::PartialEq" not in str(v_.get("impl_trait")) or v_.get("crate") not in ("multiboot2", "multiboot2_header"):
+            continue
+        a_ = F.adts.get(v_.get("impl_self_path")) or {}
+        if not a_.get("unsized") or "PartialEq<" in str(v_.get("impl_trait")):
+            continue
+        n_eq += 1
+        nm = a_.get("name") or str(v_.get("impl_self_path")).split("::")[-1]
+        if v_.get("derived"):
+            ctx.ok("N10", "eq:" + nm, "%s == %s is the derived field-by-field comparison" % (nm, nm), v_.get("span", ""), how="#[derive(PartialEq)]", nontrivial=False)
+            continue
+        ok_, why_ = eq_is_fieldwise(F, v_)
+        ctx.check(ok_, "N10", "eq:" + nm, "the hand-written %s::eq compares the same field of both sides, test by test, answers true when all tests do, and hands "
+                  "neither side as a whole to anything (no padding bytes enter the comparison)" % nm, v_.get("span", ""), how=why_, why=why_)
+    ctx.floor("N10", "PartialEq impls of dynamically sized tags", n_eq, 9)
     ctx.note("freed exactly once with the allocation layout: Box<T> drops with Layout::for_value(&*box) = (size_of_val, align_of_val) = (alloc_size, 8) by N7+N8; "
              "exactly-once is Rust ownership (hand step)")
     return ctx.finish(
@@ -373,3 +392,95 @@ def _subterms(t, acc=None):
             if isinstance(x, tuple):
                 _subterms(x, acc)
     return acc
+
+
+def eq_is_fieldwise(F, inst):
+    """a hand-written `eq(&self, &other)`: every test is `self.PLACE == other.PLACE` for one and the same field place (a primitive
+    comparison or a PartialEq::eq call on references to it), nothing else is handed self / other, and following the `equal` outcome
+    of every test leads to `true`"""
+    A = an.of(F, inst)
+    b = A.body
+
+    def swap(t):
+        if isinstance(t, tuple):
+            if len(t) >= 2 and t[0] == "arg" and t[1] in (1, 2):
+                return ("arg", 3 - t[1]) + tuple(t[2:])
+            return tuple(swap(x) for x in t)
+        return t
+
+    def mentions(t):
+        return isinstance(t, tuple) and ((len(t) >= 2 and t[0] == "arg") or any(mentions(x) for x in t))
+
+    def is_field_place(t):
+        # &(*argK).f... / (*argK).f...
+        x = t
+        while isinstance(x, tuple) and x and x[0] in ("ref", "deref"):
+            x = x[1]
+        seen_f = False
+        while isinstance(x, tuple) and x and x[0] == "fld":
+            seen_f = True
+            x = x[1]
+            while isinstance(x, tuple) and x and x[0] in ("ref", "deref"):
+                x = x[1]
+        return seen_f and isinstance(x, tuple) and x[:1] == ("arg",)
+
+    def truth_of(d):
+        """value of a test when both sides are the same object: `==` of one field place of both sides is true, `!=` false"""
+        if d[0] == "c":
+            return d[1]
+        if d[0] == "call" and len(d[2]) == 2 and swap(d[2][0]) == d[2][1] and d[2][0] != d[2][1] and is_field_place(d[2][0]):
+            return 1 if str(d[1]).endswith("::eq") else 0 if str(d[1]).endswith("::ne") else None
+        if d[0] == "bin" and d[1] in ("Eq", "Ne") and swap(d[2]) == d[3] and d[2] != d[3] and is_field_place(d[2]):
+            return 1 if d[1] == "Eq" else 0
+        if d[0] == "un" and d[1] == "Not":
+            x = truth_of(d[2])
+            return None if x is None else 1 - x
+        if d[0] == "not":
+            x = truth_of(d[1])
+            return None if x is None else 1 - x
+        return None
+
+    for bb, t in b.calls():
+        at = (bb, len(b.stmts(bb)))
+        args = [N(A.tb.operand(a, at)) for a in t["args"]]
+        p = M.callee_path(t) or ""
+        if not any(mentions(a) for a in args):
+            continue
+        if len(args) == 2 and (p.endswith("::eq") or p.endswith("::ne")) and "PartialEq" in p + str(M.callee_key(t)) and \
+                swap(args[0]) == args[1] and args[0] != args[1] and is_field_place(args[0]):
+            continue
+        return False, "call %s is handed %s" % (p.split("::")[-1], [G.show(a)[:40] for a in args])
+    cur, val, steps = 0, None, 0
+    while steps < 200:
+        steps += 1
+        for st in b.stmts(cur):
+            if st["k"] == "assign" and st["lhs"].get("l") == 0 and not st["lhs"].get("p"):
+                v = N(A.tb.rvalue(st["rv"], (cur, 0), st))
+                val = truth_of(v)
+        t = b.term(cur)
+        if t["k"] == "return":
+            return (val == 1, "all tests equal -> %s" % ("true" if val == 1 else "not the constant true"))
+        if t["k"] == "goto":
+            cur = t["t"]
+        elif t["k"] == "call":
+            if t.get("t") is None:
+                return False, "diverging call"
+            if (t.get("dest") or {}).get("l") == 0:
+                # `.. && self.f == other.f`: the answer is the last test's outcome
+                val = truth_of(N(A.tb.call_value(t, cur)))
+            cur = t["t"]
+        elif t["k"] == "switch":
+            d = N(A.tb.operand(t["d"], (cur, len(b.stmts(cur)))))
+            truth = truth_of(d)
+            if truth is None:
+                return False, "test %s is not a comparison of one field of both sides" % G.show(d)[:80]
+            nxt = t["otherwise"]
+            for v_, tg in zip(t["vals"], t["ts"]):
+                if v_ == truth:
+                    nxt = tg
+            cur = nxt
+        elif t["k"] in ("assert", "drop"):
+            cur = t["t"]
+        else:
+            return False, "terminator %s" % t["k"]
+    return False, "no return reached"
